@@ -12,6 +12,8 @@
 //! `initial content + journal[0..k]` is rebuilt and examined through fresh
 //! wrapper instances.
 
+use object_store::{Error, ObjectStore, ObjectStoreExt, path::Path};
+use serde::{Deserialize, Serialize};
 use serde_json::{Value, json};
 use std::sync::atomic::{AtomicBool, Ordering};
 use std::time::{Duration, Instant};
@@ -361,6 +363,299 @@ fn run_case(case: &Case, cfg: Cfg, want_sample: bool, out: &mut Out) {
     }
 }
 
+
+// ---------------------------------------------------------------------------
+// two-handle family
+
+#[derive(Clone, Debug, PartialEq, Eq, Serialize, Deserialize)]
+enum TwoStart {
+    Base(Start),
+    /// key 0 committed in the generation layout (v10)
+    GenA,
+    /// both keys committed in the generation layout (v10, v11)
+    GenAB,
+}
+
+impl TwoStart {
+    fn name(&self) -> String {
+        match self {
+            TwoStart::Base(s) => s.name(),
+            TwoStart::GenA => "gen-a".into(),
+            TwoStart::GenAB => "gen-a+b".into(),
+        }
+    }
+    fn build(&self, kind: Kind) -> (Content, Model) {
+        let keys: &[u8] = match self {
+            TwoStart::Base(s) => return s.build(kind),
+            TwoStart::GenA => &[0],
+            TwoStart::GenAB => &[0, 1],
+        };
+        clock(500);
+        let (store, _ctl) = CtlStore::new();
+        let w = W::open(kind, store.clone());
+        let mut m = empty_model();
+        for k in keys {
+            let op = Op::Put { k: *k, v: 10 + *k };
+            util::block_on(run_op(&w, &op)).expect("setup put");
+            m = model_step(&m, &op).0;
+        }
+        (ctlstore::snapshot(store.inner()), m)
+    }
+}
+
+fn two_starts(kind: Kind) -> Vec<TwoStart> {
+    let mut v = vec![
+        TwoStart::GenAB,
+        TwoStart::GenA,
+        TwoStart::Base(Start::Empty),
+        TwoStart::Base(Start::LegacyAB(LegacyFlavor::Plain)),
+    ];
+    if kind == Kind::Enc {
+        v.push(TwoStart::Base(Start::LegacyAB(LegacyFlavor::SealedV1)));
+    }
+    v
+}
+
+#[derive(Clone, Copy, Debug, PartialEq, Eq)]
+enum ReadPath {
+    Get,
+    GetRange,
+    GetRanges,
+    Head,
+}
+
+const READ_PATHS: [ReadPath; 4] = [ReadPath::Get, ReadPath::GetRange, ReadPath::GetRanges, ReadPath::Head];
+
+#[derive(Clone, Debug, PartialEq, Eq)]
+enum Got {
+    NotFound,
+    Bytes(Vec<Vec<u8>>),
+    Size(u64),
+    Failed(String),
+}
+
+// every value is >= 40 bytes, so these ranges are valid whatever the handle believes the size is
+const R1: std::ops::Range<u64> = 3..20;
+const R2: [std::ops::Range<u64>; 2] = [0..3, 20..38];
+
+fn expected(path: ReadPath, v: &Option<Vec<u8>>) -> Got {
+    let Some(v) = v else {
+        return Got::NotFound;
+    };
+    match path {
+        ReadPath::Get => Got::Bytes(vec![v.clone()]),
+        ReadPath::GetRange => Got::Bytes(vec![v[R1.start as usize..R1.end as usize].to_vec()]),
+        ReadPath::GetRanges => Got::Bytes(R2.iter().map(|r| v[r.start as usize..r.end as usize].to_vec()).collect()),
+        ReadPath::Head => Got::Size(v.len() as u64),
+    }
+}
+
+async fn read_via(os: &dyn ObjectStore, key: &Path, path: ReadPath) -> Got {
+    let fail = |e: Error| match e {
+        Error::NotFound { .. } => Got::NotFound,
+        e => Got::Failed(e.to_string().chars().take(200).collect()),
+    };
+    match path {
+        ReadPath::Get => match os.get(key).await {
+            Ok(res) => {
+                let declared = res.meta.size;
+                match res.bytes().await {
+                    Ok(b) if b.len() as u64 == declared => Got::Bytes(vec![b.to_vec()]),
+                    Ok(b) => Got::Failed(format!("get declared {declared} bytes but delivered {}", b.len())),
+                    Err(e) => fail(e),
+                }
+            }
+            Err(e) => fail(e),
+        },
+        ReadPath::GetRange => match os.get_range(key, R1).await {
+            Ok(b) => Got::Bytes(vec![b.to_vec()]),
+            Err(e) => fail(e),
+        },
+        ReadPath::GetRanges => match os.get_ranges(key, &R2).await {
+            Ok(parts) => Got::Bytes(parts.iter().map(|b| b.to_vec()).collect()),
+            Err(e) => fail(e),
+        },
+        ReadPath::Head => match os.head(key).await {
+            Ok(m) => Got::Size(m.size),
+            Err(e) => fail(e),
+        },
+    }
+}
+
+fn describe_got(g: &Got) -> String {
+    match g {
+        Got::NotFound => "NotFound".into(),
+        Got::Bytes(parts) => format!(
+            "bytes[{}]",
+            parts
+                .iter()
+                .map(|p| format!("{}B tag {:x}", p.len(), p.first().map(|b| b >> 4).unwrap_or(0)))
+                .collect::<Vec<_>>()
+                .join(", ")
+        ),
+        Got::Size(n) => format!("size {n}"),
+        Got::Failed(e) => format!("error: {e}"),
+    }
+}
+
+/// Warms a handle the way a long-lived reader would: get + head of every key and a listing.
+fn warm(w: &W) {
+    util::block_on(async {
+        for k in 0..KEYS.len() as u8 {
+            if let Ok(r) = w.os().get(&key_path(k)).await {
+                let _ = r.bytes().await;
+            }
+            let _ = w.os().head(&key_path(k)).await;
+        }
+        use futures::TryStreamExt;
+        let _ = w.os().list(None).try_collect::<Vec<_>>().await;
+    });
+}
+
+/// Brings the live inner store from `from` to `to` (what handle A, then dead, left behind).
+fn morph(inner: &object_store::memory::InMemory, from: &Content, to: &Content) {
+    for (p, v) in to {
+        if from.get(p) != Some(v) {
+            util::now(inner.put(&Path::from(p.as_str()), v.clone().into())).expect("put");
+        }
+    }
+    for p in from.keys() {
+        if !to.contains_key(p) {
+            util::now(inner.delete(&Path::from(p.as_str()))).expect("delete");
+        }
+    }
+}
+
+#[derive(Clone, Debug)]
+struct TwoCase {
+    kind: Kind,
+    start: TwoStart,
+    seq: Vec<Op>,
+}
+
+/// One state handle A left behind (journal prefix `k`), read through warm handles.
+fn two_handle_state(case: &TwoCase, k: usize, content0: &Content, m0: &Model, content_k: &Content, out: &mut Out) {
+    let kind = case.kind;
+    let last = case.seq.last();
+    out.add("evaluations", 1);
+    out.add("two_handle_states", 1);
+    let ptr0 = referenced_payloads(content0);
+    for after_gc in [false, true] {
+        let phase = if after_gc { "after-gc-by-restarted-instance" } else { "before-gc" };
+        let inner = ctlstore::restore(content0);
+        // one warm handle per read path, so that no path is healed by another one's refresh
+        let handles: Vec<W> = READ_PATHS
+            .iter()
+            .map(|_| {
+                let (w, _) = fresh(kind, &inner);
+                warm(&w);
+                w
+            })
+            .collect();
+        morph(&inner, content0, content_k);
+        if after_gc {
+            clock(1_000_000);
+            let (wg, _) = fresh(kind, &inner);
+            if util::block_on(wg.gc()).is_err() {
+                out.add("gc_errors_observed", 1);
+            }
+        }
+        let now = ctlstore::snapshot(&inner);
+        let (wc, _) = fresh(kind, &inner);
+        let cold = util::block_on(observe_all(wc.os()));
+        let Some(current) = cold.as_model() else {
+            continue; // a broken cold read is the main family's finding
+        };
+        for (w, path) in handles.iter().zip(READ_PATHS) {
+            for key in 0..KEYS.len() {
+                out.add("two_handle_reads", 1);
+                let got = util::block_on(read_via(w.os(), &key_path(key as u8), path));
+                let want_now = expected(path, &current[key]);
+                // the value the handle cached may still be served while its payload object exists
+                let cached_payload_alive = ptr0
+                    .get(&format!("meta/{}", KEYS[key]))
+                    .is_some_and(|p| now.contains_key(p) && now.get(p) == content0.get(p));
+                let want_lag = expected(path, &m0[key]);
+                if got == want_now {
+                    if m0[key] != current[key] && m0[key].is_some() && !cached_payload_alive {
+                        out.add("two_handle_reads_healed_from_stale_pointer", 1);
+                    }
+                    continue;
+                }
+                if m0[key].is_some() && cached_payload_alive && got == want_lag {
+                    out.add("two_handle_reads_served_cached_previous_value", 1);
+                    continue;
+                }
+                let class = match (&got, &current[key]) {
+                    (Got::NotFound, Some(_)) => "committed-key-not-found",
+                    (Got::Failed(_), _) => "read-error",
+                    _ => "wrong-value",
+                };
+                out.violations.push(Violation {
+                    signature: format!(
+                        "crash:{}:two-handle:{}:{phase}:{path:?}:{class}",
+                        kind.name(),
+                        last.map(|o| o.kind()).unwrap_or("none")
+                    ),
+                    summary: format!(
+                        "{} start={} handle B warmed, then handle A ran {:?} and stopped after inner mutation #{k} [{phase}]: \
+                         B.{path:?}({}) = {}; current committed {}; value B cached {} (its payload object {})",
+                        kind.name(),
+                        case.start.name(),
+                        seq_labels(&case.seq),
+                        KEYS[key],
+                        describe_got(&got),
+                        describe_model(&current),
+                        describe_model(m0),
+                        if cached_payload_alive { "still exists" } else { "is gone" },
+                    ),
+                    replay: json!({
+                        "family": "two-handle",
+                        "kind": kind,
+                        "start": case.start,
+                        "seq": case.seq,
+                        "seq_readable": seq_labels(&case.seq),
+                        "stopped_after_mutations": k,
+                        "phase": phase,
+                    }),
+                });
+            }
+        }
+    }
+}
+
+fn run_two_handle_case(case: &TwoCase, out: &mut Out) {
+    clock(1000);
+    let kind = case.kind;
+    let (content0, m0) = case.start.build(kind);
+    clock(1000);
+    out.add("two_handle_sequences", 1);
+    if case.seq.is_empty() {
+        two_handle_state(case, 0, &content0, &m0, &content0, out);
+        return;
+    }
+    // handle A runs the sequence once with the journal on
+    let inner = ctlstore::restore(&content0);
+    let (a, ctl) = fresh(kind, &inner);
+    let mut range = (0usize, 0usize);
+    for op in &case.seq {
+        let s = ctl.journal_len();
+        let _ = util::block_on(run_op(&a, op)); // outcomes are judged by the main family
+        range = (s, ctl.journal_len());
+    }
+    let journal = ctl.journal();
+    let (s, e) = range;
+    let mut content = content0.clone();
+    for entry in &journal[..s] {
+        ctlstore::apply(&mut content, &entry.mutation);
+    }
+    // A stops after every prefix of its last operation (k == e: it completed)
+    for k in s + 1..=e {
+        ctlstore::apply(&mut content, &journal[k - 1].mutation);
+        two_handle_state(case, k, &content0, &m0, &content, out);
+    }
+}
+
 fn nth_seq(depth: usize, mut idx: u64) -> Vec<Op> {
     // most significant digit = position 0
     let base = alphabet(0).len() as u64;
@@ -394,6 +689,23 @@ fn main() {
     if let Some(file) = run.replay_file.clone() {
         let v: Value = serde_json::from_slice(&std::fs::read(&file).expect("read replay")).expect("json");
         let r = &v["replay"];
+        if r["family"] == "two-handle" {
+            let case = TwoCase {
+                kind: serde_json::from_value(r["kind"].clone()).expect("kind"),
+                start: serde_json::from_value(r["start"].clone()).expect("start"),
+                seq: serde_json::from_value(r["seq"].clone()).expect("seq"),
+            };
+            let mut out = Out::default();
+            run_two_handle_case(&case, &mut out);
+            for (k, n) in &out.counters {
+                run.add(k, *n);
+            }
+            println!("replayed two-handle {} start={} seq={:?}", case.kind.name(), case.start.name(), seq_labels(&case.seq));
+            for v in out.violations {
+                run.violation(v);
+            }
+            run.finish();
+        }
         let case = Case {
             kind: serde_json::from_value(r["kind"].clone()).expect("kind"),
             start: serde_json::from_value(r["start"].clone()).expect("start"),
@@ -411,8 +723,50 @@ fn main() {
         run.finish();
     }
 
-    let max_depth = run.tier.pick(3usize, 5usize);
     let base = alphabet(0).len() as u64;
+
+    // --- two-handle family: all sequences of length <= 2 (quick) / 3 (thorough)
+    let two_depth = run.tier.pick(2usize, 3usize);
+    let mut two_items: Vec<TwoCase> = Vec::new();
+    for kind in [Kind::Meta, Kind::Enc] {
+        for start in two_starts(kind) {
+            for depth in 0..=two_depth {
+                for idx in 0..base.pow(depth as u32) {
+                    two_items.push(TwoCase {
+                        kind,
+                        start: start.clone(),
+                        seq: nth_seq(depth, idx),
+                    });
+                }
+            }
+        }
+    }
+    let two_outs = util::par_map(two_items, util::n_threads(), |case| {
+        let mut out = Out::default();
+        run_two_handle_case(&case, &mut out);
+        out
+    });
+    let mut two_all = Out::default();
+    for o in two_outs {
+        two_all.merge(o);
+    }
+    for (k, n) in &two_all.counters {
+        run.add(k, *n);
+    }
+    let two_failed = !two_all.violations.is_empty();
+    for v in two_all.violations {
+        run.violation(v);
+    }
+    run.set("two_handle_max_sequence_length", json!(two_depth));
+    eprintln!(
+        "two-handle family done at {:.1}s: sequences={} states={} reads={}",
+        run.elapsed(),
+        run.get("two_handle_sequences"),
+        run.get("two_handle_states"),
+        run.get("two_handle_reads")
+    );
+
+    let max_depth = if two_failed { 0 } else { run.tier.pick(3usize, 5usize) };
     let deadline = Instant::now() + Duration::from_secs_f64(run.remaining_s());
     let mut completed: Option<usize> = None;
     let chunk = 64u64;
@@ -525,9 +879,13 @@ fn main() {
          examined by cold read (get, get_range, get_ranges, head, list per key vs {old,new}), collect_garbage + re-read through three instances + direct inner-store comparison, \
          collect_garbage itself interrupted after each of its mutations, recovery puts read back through the writing and a fresh instance, \
          and every single operation from the crash state (effort by sequence length: see effort_by_length); \
-         distinct non-trivial = crash states strictly inside an operation (some but not all of its mutations landed)",
+         distinct non-trivial = crash states strictly inside an operation (some but not all of its mutations landed) \
+         | two-handle family: every sequence of <= M operations through handle A from start states {gen a+b, gen a, empty, legacy a+b}, a second handle B warmed beforehand \
+         (get + head + list of every key; one warm handle per read path); for every journal prefix of A's last operation, before and after a restarted instance's collect_garbage: \
+         B.get / get_range / get_ranges / head of every key = the current committed value, or the value B cached in full while the payload object its pointer names still exists",
     );
     run.assume("each inner-store mutation (put, multipart complete, copy, delete) is atomic and durable in order: a crash state is a prefix of the mutation journal");
+    run.assume("a long-lived second handle's metadata cache may lag (documented: authoritative read-through cache, 1 h TTL) only while the payload its cached pointer names still exists; listings through it are not judged (they answer from the cache by design)");
     run.assume("the inner store is not tampered with; AES-GCM and the OS RNG behave as specified");
     run.assume("generation ids and the GC floor read the logical clock installed through the verif feature (anda_db_utils::verif::set_clock)");
     run.finish();
